@@ -8,7 +8,12 @@
    in any order until one container remains.  Each sample contributes  r(c,i) * [1, x_i, x_i^2]
    per component c, with responsibilities r(.,i) >= 0 summing to one, plus one to the count t and
    ll_i to the total log-likelihood.  `cov` is a ghost bag recording which samples a container
-   covers.  Adding containers of different shapes is refused and leaves both operands intact.  *)
+   covers.  Adding containers of different shapes is refused and leaves both operands intact.
+
+   Containers have a life cycle of their own: a zero accumulator is obtained from the constructor, from
+   resize() / init_fields() of any container, or by reset() of a container that is no longer needed
+   (gmm.py:210-239, :358-362); it covers nothing and is then used like any other operand, typically as the
+   left side of `+=`.  At most one such step per behaviour (ghost set `zeroed`) keeps the model small.       *)
 EXTENDS Rat, TLC, Json, Bags
 
 CONSTANTS N,            \* samples 1..N
@@ -16,14 +21,16 @@ CONSTANTS N,            \* samples 1..N
           Scenarios,    \* set of records [x, r, ll]: sample values (integers, one feature), responsibility
                         \* vectors (C rationals >= 0 summing to 1) and per-sample log-likelihood stand-ins
           Partitions,   \* set of partitions: each a set of non-empty disjoint blocks covering 1..N
+          AllowZero,    \* BOOLEAN: whether the Zero / Reset steps of the container life cycle are explored
           Dev           \* named deviations
 
 VARIABLES x, r, ll, part,       \* scenario
           heap,                 \* sequence of containers [cov, t, n, px, pxx, llsum, live]
           todo,                 \* blocks not yet accumulated
           refused,              \* a shape-mismatched addition was attempted and refused
+          zeroed,               \* ghost: containers made by Zero / Reset (at most one per behaviour)
           hist                  \* history of operations (export only)
-vars == <<x, r, ll, part, heap, todo, refused, hist>>
+vars == <<x, r, ll, part, heap, todo, refused, zeroed, hist>>
 Covs(h) == [k \in 1..Len(h) |-> [i \in 1..N |-> IF i \in BagToSet(h[k].cov) THEN CopiesIn(i, h[k].cov) ELSE 0]]
 
 Idx == 1..N
@@ -49,13 +56,13 @@ Live == {k \in 1..Len(heap) : heap[k].live}
 
 Init == /\ \E s \in Scenarios : x = s.x /\ r = s.r /\ ll = s.ll
         /\ part \in Partitions /\ todo = part
-        /\ heap = <<>> /\ refused = FALSE /\ hist = <<>>
+        /\ heap = <<>> /\ refused = FALSE /\ zeroed = {} /\ hist = <<>>
 
 \* machine.acc_stats(X[block]) -- a fresh container
 EStep(b) == /\ b \in todo /\ todo' = todo \ {b}
             /\ heap' = Append(heap, Mk(SetToBag(b), SumContrib(b), TRUE))
             /\ hist' = Append(hist, [op |-> "EStep", a |-> 0, b |-> 0, block |-> b, res |-> Len(heap) + 1, covs |-> Covs(heap')])
-            /\ UNCHANGED <<x, r, ll, part, refused>>
+            /\ UNCHANGED <<x, r, ll, part, refused, zeroed>>
 \* c = a + b : new container; a and b keep their values (they are retired from further
 \* combination only to bound the model -- their values stay on the heap and stay checked)
 AddNew(a, b) == /\ a \in Live /\ b \in Live /\ a # b
@@ -66,21 +73,37 @@ AddNew(a, b) == /\ a \in Live /\ b \in Live /\ a # b
                    IN heap' = Append([heap EXCEPT ![a] = na, ![b] = [heap[b] EXCEPT !.live = FALSE]],
                                      Mk(heap[a].cov (+) heap[b].cov, Plus(ValOf(heap[a]), ValOf(heap[b])), TRUE))
                 /\ hist' = Append(hist, [op |-> "Add", a |-> a, b |-> b, block |-> {}, res |-> Len(heap) + 1, covs |-> Covs(heap')])
-                /\ UNCHANGED <<x, r, ll, part, todo, refused>>
+                /\ UNCHANGED <<x, r, ll, part, todo, refused, zeroed>>
 \* a += b : a mutated, b untouched
 IAdd(a, b) == /\ a \in Live /\ b \in Live /\ a # b
               /\ LET v == Plus(ValOf(heap[a]), ValOf(heap[b]))
-                     v2 == IF "IADD_SKIPS_PXX" \in Dev THEN [v EXCEPT !.pxx = heap[a].pxx] ELSE v
+                     \* deviation: reset() gives both moments ONE buffer, so every += lands in both
+                     sh == VAdd(v.px, heap[b].pxx)
+                     v2 == IF "IADD_SKIPS_PXX" \in Dev THEN [v EXCEPT !.pxx = heap[a].pxx]
+                           ELSE IF "RESET_SHARES_MOMENT_BUFFERS" \in Dev /\ a \in zeroed THEN [v EXCEPT !.px = sh, !.pxx = sh]
+                           ELSE v
                  IN heap' = [heap EXCEPT ![a] = Mk(heap[a].cov (+) heap[b].cov, v2, TRUE),
                                          ![b] = [heap[b] EXCEPT !.live = FALSE]]
               /\ hist' = Append(hist, [op |-> "IAdd", a |-> a, b |-> b, block |-> {}, res |-> a, covs |-> Covs(heap')])
-              /\ UNCHANGED <<x, r, ll, part, todo, refused>>
+              /\ UNCHANGED <<x, r, ll, part, todo, refused, zeroed>>
 \* a + other / a += other with `other` of another shape: ValueError, nothing changes
 Mismatch(a) == /\ a \in Live /\ ~refused /\ refused' = TRUE
                /\ hist' = Append(hist, [op |-> "Mismatch", a |-> a, b |-> 0, block |-> {}, res |-> 0, covs |-> Covs(heap)])
-               /\ UNCHANGED <<x, r, ll, part, heap, todo>>
+               /\ UNCHANGED <<x, r, ll, part, heap, todo, zeroed>>
+
+\* a zero accumulator: GMMStats(C, D), or resize() / init_fields() of some container
+ZeroNew == /\ AllowZero /\ zeroed = {} /\ zeroed' = {Len(heap) + 1}
+           /\ heap' = Append(heap, Mk(EmptyBag, ZeroVal, TRUE))
+           /\ hist' = Append(hist, [op |-> "Zero", a |-> 0, b |-> 0, block |-> {}, res |-> Len(heap) + 1, covs |-> Covs(heap')])
+           /\ UNCHANGED <<x, r, ll, part, todo, refused>>
+\* reset() of a container whose value is no longer needed
+Reset(k) == /\ AllowZero /\ zeroed = {} /\ k \in 1..Len(heap) /\ ~heap[k].live /\ zeroed' = {k}
+            /\ heap' = [heap EXCEPT ![k] = Mk(EmptyBag, ZeroVal, TRUE)]
+            /\ hist' = Append(hist, [op |-> "Reset", a |-> k, b |-> 0, block |-> {}, res |-> k, covs |-> Covs(heap')])
+            /\ UNCHANGED <<x, r, ll, part, todo, refused>>
 
 Next == \/ \E b \in todo : EStep(b)
+        \/ ZeroNew \/ \E k \in 1..Len(heap) : Reset(k)
         \/ \E a, b \in Live : AddNew(a, b) \/ IAdd(a, b)
         \/ \E a \in Live : Mismatch(a)
 Spec == Init /\ [][Next]_vars
@@ -96,10 +119,10 @@ NNonNegSumsToT == \A k \in 1..Len(heap) : /\ \A c \in Comp : ~Lt(heap[k].n[c], Z
 SameCoversSameValue == Done => LET k == CHOOSE k \in Live : TRUE IN ValOf(heap[k]) = SumContrib(Idx)
 \* `+` never changes an operand; `+=` never changes its right operand; a refused addition changes nothing
 AddDoesNotMutate == [][\A k \in 1..Len(heap) :
-                          (k \in DOMAIN heap' /\ ~(hist'[Len(hist')].op = "IAdd" /\ hist'[Len(hist')].a = k))
+                          (k \in DOMAIN heap' /\ ~(hist'[Len(hist')].op \in {"IAdd", "Reset"} /\ hist'[Len(hist')].a = k))
                               => ValOf(heap'[k]) = ValOf(heap[k])]_vars
 MismatchRefused == [][hist'[Len(hist')].op = "Mismatch" => heap' = heap]_vars
 
-View == <<x, r, ll, part, heap, todo, refused>>
+View == <<x, r, ll, part, heap, todo, refused, zeroed>>
 Export == Done => PrintT(ToJson([part |-> part, hist |-> hist]))
 =============================================================================
